@@ -3,6 +3,7 @@ import BigDec.Proofs.ExpEnclosure
 import BigDec.Proofs.EstCode
 import BigDec.Proofs.ExpPos
 import BigDec.Proofs.ExpAccuracy
+import BigDec.Proofs.ExpTerm
 /-! # C13 — exp(x) is positive and accurate to its last digit for every argument
 
 What is proved for ALL arguments about the model of the repaired routine (series for `|x|`,
@@ -450,5 +451,82 @@ theorem C13_stop_index_expN (cfg : Config) (est : Nat → Nat) (x : Dec) (hx : x
   · simp only [hneg, if_false]
     rw [abs_of_pos_int x (by omega)]
     cases expLoopN cfg est x x.digits fuel 2 x 1 (addBigdecimals x Dec.one) (addBigdecimals x Dec.one) <;> rfl
+
+
+/-! ## Termination
+
+Once `n ≥ 2|x|` every Taylor term at least halves; `4(P+5)+2` halvings later two consecutive terms
+together are below half a grid step of the `P+5`-digit trimmed sum, and of three consecutive sums two
+trim to the same value (`trim_two_of_three`, also across a power of ten) - the loop stops there or one
+pass later (`expLoopN_stops_late`, `expLoopN_terminates`). -/
+
+/-- **the series loop stops**: for `|x| ≤ X` the routine returns as soon as the model is given
+    `2X + 4(P+5) + 3` passes, and the stop index is at most one more -/
+theorem C13_terminates (cfg : Config) {est : Nat → Nat} (hest : EstOK est) (hp : 1 ≤ cfg.precision)
+    (x : Dec) (hx : x.int ≠ 0) (X : Nat) (hX : |x.value| ≤ (X : ℚ)) (fuel : Nat)
+    (hfuel : 2 * X + 4 * (cfg.precision + Generated.expGuardDigits) + 3 ≤ fuel) :
+    ∃ out N, x.exp cfg est fuel = some out ∧ x.expStopIndex cfg est fuel = some N ∧
+      N ≤ 2 * X + 4 * (cfg.precision + Generated.expGuardDigits) + 4 := by
+  rw [C13_stop_index_expN cfg est x hx fuel, Dec.exp_eq_expN]
+  unfold Dec.expN
+  have hz : x.isZero = false := by simp [Dec.isZero]; omega
+  rw [hz]
+  simp only [Bool.false_eq_true, if_false]
+  -- the argument of the series
+  obtain ⟨a, ha⟩ : ∃ a : Dec, a = (if x.int < 0 then x.abs else x) := ⟨_, rfl⟩
+  rw [← ha]
+  have hapos : 0 < a.int := by
+    rw [ha]; split
+    · simp [Dec.abs]; omega
+    · omega
+  have haval : a.value = |x.value| := by
+    rw [ha]; split
+    · rename_i hneg
+      have hxv : x.value < 0 := by
+        have := (value_pos_iff ⟨-x.int, x.scale⟩).mpr (by simp; omega)
+        unfold Dec.value at this ⊢
+        simp only [Int.cast_neg] at this
+        linarith
+      rw [abs_of_neg hxv]
+      unfold Dec.value Dec.abs
+      simp only
+      have : ((x.int.natAbs : Int) : ℚ) = -(x.int : ℚ) := by
+        have : (x.int.natAbs : Int) = -x.int := by omega
+        rw [this]; push_cast; ring
+      rw [this]; ring
+    · rename_i hnn
+      have : 0 < x.value := (value_pos_iff x).mpr (by omega)
+      rw [abs_of_pos this]
+  have hav : 0 < a.value := (value_pos_iff a).mpr hapos
+  have h1v : Dec.one.value = 1 := by unfold Dec.value Dec.one; norm_num
+  have hinv : ExpInv cfg a a.digits 2 a 1 (addBigdecimals a Dec.one) := by
+    refine ⟨le_refl _, by simp, by simp, by rw [value_addBigdecimals, h1v]; linarith, ?_⟩
+    have hE1 : Eq' a.value (2 - 1) = a.value + 1 := by
+      unfold Eq' tq; simp [Finset.sum_range_succ]; ring
+    rw [value_addBigdecimals, h1v, hE1, sub_self, abs_zero]
+    have := (expEta_le cfg a.digits).1
+    positivity
+  obtain ⟨N, r, hr, hN⟩ := expLoopN_terminates cfg hest hp a hapos a.digits (2 * X)
+    (by push_cast; rw [haval]; linarith)
+    (2 * X + 4 * (cfg.precision + Generated.expGuardDigits) + 1) fuel 2 a 1 _ _ hinv (Or.inr rfl) (by omega) (by omega)
+  rw [hr]
+  simp only [Option.map_some]
+  split
+  · exact ⟨_, N, rfl, rfl, by omega⟩
+  · exact ⟨_, N, rfl, rfl, by omega⟩
+
+/-- **total correctness of C13's headline clause for the code's own digit estimate**: for every
+    non-zero decimal with `|x| ≤ 1000` and every precision `P ≥ 1`, given `4P + 2023 ≤ fuel ≤ 90000`
+    passes the routine RETURNS a result that is strictly positive and strictly less than one unit of
+    its last digit away from the real `e^x` -/
+theorem C13_total_to_1000_code (cfg : Config) (hp : 1 ≤ cfg.precision)
+    (x : Dec) (hx : x.int ≠ 0) (hx1000 : |x.value| ≤ 1000) (fuel : Nat)
+    (hfuel1 : 4 * cfg.precision + 2023 ≤ fuel) (hfuel2 : fuel ≤ 90000) :
+    ∃ out, x.exp cfg estGuard fuel = some out ∧ 0 < out.value ∧
+      |(out.value : ℝ) - Real.exp (x.value : ℝ)| < (10 : ℝ) ^ (-out.scale) := by
+  have hg : Generated.expGuardDigits = 5 := rfl
+  obtain ⟨out, N, h, _, _⟩ := C13_terminates cfg estGuard_ok hp x hx 1000 (by exact_mod_cast hx1000) fuel
+    (by rw [hg]; omega)
+  exact ⟨out, h, C13_accuracy_to_1000_code cfg hp x hx hx1000 fuel hfuel2 out h⟩
 
 end BigDec
